@@ -37,8 +37,8 @@ func C15_Run(job string) {
 	switch a {
 	case "dispatch":
 		// method and Content-Type are symbolic; the three parsers are replaced by recorders
-		method := v.String("method", 7)
-		ct := v.String("content-type", 35)
+		method := v.String("method", 7+v.Tier())
+		ct := v.String("content-type", 35+5*v.Tier())
 		chosen := ""
 		oj, of, oq := zhttp.Config.Parsers.JSON, zhttp.Config.Parsers.Form, zhttp.Config.Parsers.Query
 		mk := func(name string) zhttp.ParserFunc {
